@@ -6,7 +6,8 @@ use crate::model::*;
 use crate::ops;
 use crate::props::c01;
 use crate::props::c10::{run_pipe, Pipe};
-use crate::report::{Run, Tier};
+use crate::report::{quiet_catch, Run, Tier};
+use std::panic::AssertUnwindSafe;
 use crate::universe as u;
 use narsese::enum_narsese::Narsese;
 use rayon::prelude::*;
@@ -89,16 +90,30 @@ pub fn replay_case(c: &J) -> Result<(), String> {
 }
 
 /// literal macro invocations: tie the macro text to the parse_chars(strip) path
-fn macro_cases() -> Vec<(&'static str, Narsese, Narsese)> {
+fn macro_cases() -> Vec<(&'static str, Box<dyn Fn() -> Narsese>, Narsese)> {
     use narsese::enum_nse as nse;
     let f = fmts::ascii();
     let p = |s: &str| f.e.parse::<Narsese>(s).expect("macro reference string must parse");
     vec![
-        ("<A --> B>.", nse!(<A --> B>.), p("<A --> B>.")),
-        ("spaced statement", nse!("<  A   -->B >  .   %1.0 ; 0.9%"), p("<A --> B>. %1.0;0.9%")),
-        ("task", nse!("$0.5; 0.75;0.4$ <(&/, <{ball} --> [left]>, +3) ==> <{SELF} --> [good]>>. :!-1: %1.0;0.9%"), p("$0.5;0.75;0.4$ <(&/,<{ball}-->[left]>,+3)==><{SELF}-->[good]>>. :!-1: %1.0;0.9%")),
-        ("fixed stamp spaced", nse!("A. :! 5 :"), p("A. :!5:")),
-        ("image", nse!("( / , R , _ , B )"), p("(/,R,_,B)")),
+        ("<A --> B>.", Box::new(|| nse!(<A --> B>.)), p("<A --> B>.")),
+        ("spaced statement", Box::new(|| nse!("<  A   -->B >  .   %1.0 ; 0.9%")), p("<A --> B>. %1.0;0.9%")),
+        ("task", Box::new(|| nse!("$0.5; 0.75;0.4$ <(&/, <{ball} --> [left]>, +3) ==> <{SELF} --> [good]>>. :!-1: %1.0;0.9%")), p("$0.5;0.75;0.4$ <(&/,<{ball}-->[left]>,+3)==><{SELF}-->[good]>>. :!-1: %1.0;0.9%")),
+        ("fixed stamp spaced", Box::new(|| nse!("A. :! 5 :")), p("A. :!5:")),
+        ("image", Box::new(|| nse!("( / , R , _ , B )")), p("(/,R,_,B)")),
+        // string literals holding whitespace other than the ASCII space: tab, line break (a literal
+        // written over several lines), carriage return, ideographic space, no-break space
+        ("tab literal", Box::new(|| nse!("<A\t-->\tB>.\t%1.0;\t0.9%")), p("<A --> B>. %1.0;0.9%")),
+        ("multi-line literal", Box::new(|| nse!("$0.5;0.75;0.4$
+            <(&/, <{ball} --> [left]>, +3)
+                ==> <{SELF} --> [good]>>.
+            :!-1: %1.0;0.9%")), p("$0.5;0.75;0.4$ <(&/,<{ball}-->[left]>,+3)==><{SELF}-->[good]>>. :!-1: %1.0;0.9%")),
+        ("crlf literal", Box::new(|| nse!("(&&,\r\nA,\r\nB)")), p("(&&,A,B)")),
+        ("ideographic space literal", Box::new(|| nse!("{A,\u{3000}B}")), p("{A,B}")),
+        ("no-break space literal", Box::new(|| nse!("<A\u{a0}<->\u{a0}B>?")), p("<A<->B>?")),
+        ("term macro, tab", Box::new(|| Narsese::Term(narsese::enum_nse_term!("(*,\tA,\tB)"))), p("(*,A,B)")),
+        ("sentence macro, newline", Box::new(|| Narsese::Sentence(narsese::enum_nse_sentence!("<A --> B>!\n:|:\n%0.5%"))), p("<A --> B>! :|: %0.5%")),
+        ("task macro, tab", Box::new(|| Narsese::Task(narsese::enum_nse_task!("$0.5$\t<A --> B>.\t:/:"))), p("$0.5$ <A --> B>. :/:")),
+        ("token form", Box::new(|| nse!(<(&&, A, B) ==> C>. %1.0;0.9%)), p("<(&&,A,B)==>C>. %1.0;0.9%")),
     ]
 }
 
@@ -174,8 +189,15 @@ pub fn run(run: &Run) {
             }
         });
     }
-    for (what, got, want) in macro_cases() {
+    for (what, make, want) in macro_cases() {
         run.eval(1);
+        let got = match quiet_catch(AssertUnwindSafe(|| make())) {
+            Ok(g) => g,
+            Err(p) => {
+                run.violation(&format!("enum macro invocation {what:?} panics: {p}"), json!({"op": "macro", "what": what}), &[]);
+                continue;
+            }
+        };
         if cv_of(&got) != cv_of(&want) {
             run.violation(&format!("enum_nse! invocation {what:?} gives {} instead of {}", show_cv(&cv_of(&got)), show_cv(&cv_of(&want))), json!({"op": "macro", "what": what}), &[]);
         }
@@ -188,6 +210,31 @@ pub fn run(run: &Run) {
         run.eval(1);
         if a != b {
             run.violation("lexical_nse! with spaces differs from the unspaced parse", json!({"op": "macro", "what": "lexical"}), &[]);
+        }
+        let cases: Vec<(&str, Box<dyn Fn() -> narsese::lexical::Narsese>, &str)> = vec![
+            ("tab", Box::new(|| lnse!("<A\t-->\tB>.\t%1.0;\t0.9%")), "<A-->B>.%1.0;0.9%"),
+            ("multi-line", Box::new(|| lnse!("$0.5;0.75;0.4$
+                <(&/, <{ball} --> [left]>, +3) ==> <{SELF} --> [good]>>.
+                :!-1: %1.0;0.9%")), "$0.5;0.75;0.4$<(&/,<{ball}-->[left]>,+3)==><{SELF}-->[good]>>.:!-1:%1.0;0.9%"),
+            ("ideographic space", Box::new(|| lnse!("{A,\u{3000}B}")), "{A,B}"),
+            ("term macro", Box::new(|| narsese::lexical::Narsese::Term(narsese::lexical_nse_term!("(*,\tA,\nB)"))), "(*,A,B)"),
+            ("sentence macro", Box::new(|| narsese::lexical::Narsese::Sentence(narsese::lexical_nse_sentence!("<A --> B>!\n:|:\n%0.5%"))), "<A-->B>!:|:%0.5%"),
+            ("task macro", Box::new(|| narsese::lexical::Narsese::Task(narsese::lexical_nse_task!("$0.5$\t<A --> B>.\t:/:"))), "$0.5$<A-->B>.:/:"),
+            ("token form", Box::new(|| lnse!(<(&&, A, B) ==> C>. %1.0;0.9%)), "<(&&,A,B)==>C>.%1.0;0.9%"),
+        ];
+        for (what, make, text) in cases {
+            run.eval(1);
+            let want = f.l.parse(text).unwrap();
+            let got = match quiet_catch(AssertUnwindSafe(|| make())) {
+                Ok(g) => g,
+                Err(p) => {
+                    run.violation(&format!("lexical macro invocation {what:?} panics: {p}"), json!({"op": "macro", "what": format!("lexical {what}")}), &[]);
+                    continue;
+                }
+            };
+            if got != want {
+                run.violation(&format!("lexical macro invocation {what:?} gives {got:?} instead of {want:?}"), json!({"op": "macro", "what": format!("lexical {what}")}), &[]);
+            }
         }
     }
     run.add_distinct(distinct.len());
